@@ -209,6 +209,24 @@ def encode(d, v, ctx, o=DEFAULT_OPTS):
             if v.y is None:
                 del out["y"]
         return out
+    if k == "dcselfg":
+        def node(x):      # the nested nodes are GN[int]
+            o2 = {"v": x.v}
+            if x.nxt is None:
+                if not o["drop_none_fields"]:
+                    o2["nxt"] = None
+            else:
+                o2["nxt"] = node(x.nxt)
+            return o2
+        out = {"v": E(d[1], v.v)}
+        if v.v is None and o["drop_none_fields"]:
+            del out["v"]
+        if v.nxt is None:
+            if not o["drop_none_fields"]:
+                out["nxt"] = None
+        else:
+            out["nxt"] = node(v.nxt)
+        return out
     if k == "dcmut":
         out = {"v": E(d[1], v.v)}
         if v.v is None and o["drop_none_fields"]:
@@ -538,7 +556,7 @@ def decode(d, x, ctx, o=DEFAULT_OPTS):
             else:
                 kw[name] = D(e, y)
         return info["cls"](**kw)
-    if k in ("dcgen", "dcgeninh", "dcinh", "dcself", "dcselft", "dcfwd", "dcmut"):
+    if k in ("dcgen", "dcgeninh", "dcinh", "dcself", "dcselft", "dcfwd", "dcmut", "dcselfg"):
         return _dec_special(d, x, ctx, o)
     raise ValueError(d)
 
@@ -584,6 +602,18 @@ def _dec_special(d, x, ctx, o):
         if "w" in xx:
             kw["w"] = _ctor(int, xx["w"])
         return info["cls"](info["later"](**kw), D(d[1], _need(x, "y")))
+    if k == "dcselfg":
+        def node(y):
+            if not isinstance(y, dict):
+                raise Reject("JSON object expected")
+            kw2 = dict(v=_ctor(int, _need(y, "v")))
+            if y.get("nxt") is not None:
+                kw2["nxt"] = node(y["nxt"])
+            return info["cls"](**kw2)
+        kw = dict(v=D(d[1], _need(x, "v")))
+        if x.get("nxt") is not None:
+            kw["nxt"] = node(x["nxt"])
+        return info["cls"](**kw)
     if k == "dcmut":
         kw = dict(v=D(d[1], _need(x, "v")))
         if "b" in x and x["b"] is not None:
@@ -754,6 +784,12 @@ def conforms(d, v, ctx):
         info = ctx.info[d]
         return (type(v) is info["cls"] and type(v.x) is info["later"] and C(d[1], v.x.z) and type(v.x.w) is int
                 and C(d[1], v.y))
+    if k == "dcselfg":
+        cls = ctx.info[d]["cls"]
+
+        def node(y):
+            return y is None or (type(y) is cls and type(y.v) is int and node(y.nxt))
+        return type(v) is cls and C(d[1], v.v) and node(v.nxt)
     if k == "dcmut":
         info = ctx.info[d]
         return (type(v) is info["cls"] and C(d[1], v.v)
